@@ -274,3 +274,27 @@ Qed.
 
 Lemma clock_reachable : forall p nl t0 fd0 s, reachable p nl t0 fd0 s -> t0 <= st_clock s.
 Proof. intros p nl t0 fd0 s [es ->]. apply (run_clock_mono p es (init nl t0 fd0)). Qed.
+
+Theorem never_busy_all_histories : forall p nl t0 fd0 es c,
+  In c (st_chans (run p (init nl t0 fd0) es)) -> c_requests c <> [] -> c_wc c = false /\ c_cwf c = false.
+Proof.
+  intros p nl t0 fd0 es c I.
+  assert (H : Forall flags_ok (st_chans (run p (init nl t0 fd0) es))).
+  { eapply never_busy_reachable. exists es. reflexivity. }
+  eapply Forall_forall in H; [|exact I]. exact H.
+Qed.
+
+Theorem maintenance_period_in : forall p nl t0 fd0 s l,
+  reachable p nl t0 fd0 s -> In l (st_listeners s) -> l_ncc l <= Z.max 0 (st_clock s + p_interval p).
+Proof.
+  intros p nl t0 fd0 s l HR I. pose proof (maintenance_period _ _ _ _ _ HR) as H.
+  unfold ncc_ok in H. eapply Forall_forall in H; [|exact I]. exact H.
+Qed.
+
+(* the hypotheses of busy_not_closed are satisfiable: a request is executing
+   while the clock runs far past channel_timeout and maintenance runs *)
+Example busy_example :
+  let p := mkParams 100 5 2 1 0 65536 in
+  let s := run p (init 1 1000 1000) [EConnect 0; EPoll; ESend 1000 (TComplete false); EPoll; EAdvance 100000; EPoll; EPoll] in
+  map (fun c => (c_fd c, c_requests c, c_wc c)) (st_chans s) = [(1000, [false], false)].
+Proof. vm_compute. reflexivity. Qed.
